@@ -55,9 +55,13 @@ def run_case(k: dict, f0: dict | None = None, f1: dict | None = None):
     pk = E.public_key(seed_c) if False else _pk(seed_c)
     gotmsg = b''
 
+    last_cache = {}
+
     def outcome(script, cache):
         try:
-            _, stack, _ = F.run_script(script, cache)
+            _, stack, cch = F.run_script(script, cache)
+            last_cache.clear()
+            last_cache.update(cch)
         except BaseException as e:
             if isinstance(e, (KeyboardInterrupt, SystemExit)):
                 raise
@@ -85,6 +89,10 @@ def run_case(k: dict, f0: dict | None = None, f1: dict | None = None):
             return 'bad-signature-shape', sig.hex()
         if not _verify(_pk(seed), msg, sig[:64]):
             return 'signature-does-not-cover-the-selected-message', sig.hex()
+        # the signature is also published in the cache (key s, tape flag 9 default on): the very item left on the stack,
+        # flag byte included - a script that takes it from there (@s) must be able to check it
+        if last_cache.get(b's') not in (sig, [sig]):
+            return 'signature-published-in-cache-differs-from-stack', repr(last_cache.get(b's'))[:80]
         return 'signed', msg
     # checking instructions
     if instr == 'CSS':
